@@ -13,4 +13,9 @@ template <typename Q> void wlog(int walk, int step, Q q) {
     using U = typename Q::Unit; using R = typename Q::Rep;
     std::printf("{\"k\":\"wstep\",\"w\":%d,\"i\":%d,\"obs\":{\"rep\":\"%s\",\"mag\":%s,\"v\":%s}}\n", walk, step, rep_name<R>(), unit_mag_json<U>().c_str(), wire((i128)q.in(U{})).c_str());
 }
+template <typename Q> void wlogc(int walk, int step, Q q, bool lt, bool eq, bool gt) {
+    using U = typename Q::Unit; using R = typename Q::Rep;
+    std::printf("{\"k\":\"wstep\",\"w\":%d,\"i\":%d,\"obs\":{\"rep\":\"%s\",\"mag\":%s,\"v\":%s,\"lt\":%d,\"eq\":%d,\"gt\":%d}}\n", walk, step, rep_name<R>(), unit_mag_json<U>().c_str(),
+                wire((i128)q.in(U{})).c_str(), (int)lt, (int)eq, (int)gt);
+}
 }  // namespace auv
